@@ -13,7 +13,7 @@ def oracle (mode : String) (i : Nat) : Nat → Bool :=
 
 def prog (api : String) (ok : Nat → Bool) : Option (M Int × Bool) :=   -- (program, prints str=)
   match api with
-  | "argon2id_raw" | "argon2i_raw" | "pwhash_raw" => some (pwhash ok, false)
+  | "argon2id_raw" | "argon2i_raw" | "pwhash_raw" | "argon2id_raw65" | "argon2i_raw200" | "pwhash_raw16" => some (pwhash ok, false)
   | "argon2id_str" | "argon2i_str" | "pwhash_str" => some (pwhash ok, true)
   | "argon2id_verify_ok" | "argon2i_verify_ok" | "pwhash_verify_ok" => some (argon2Verify ok true true, false)
   | "argon2id_verify_wrong" | "argon2i_verify_wrong" | "pwhash_verify_wrong" => some (argon2Verify ok true false, false)
